@@ -6,6 +6,7 @@ oracle, exact integer/Fraction arithmetic, Python's datetime as the calendar) an
 parsed tokens of the same records (correspondence).  The type -> (class, reader) table and the ZMAP/HORUS column maps are
 re-extracted from the source with `ast` on every run and compared with the model's tables."""
 import ast
+import contextlib
 import datetime
 import hashlib
 import json
@@ -13,6 +14,7 @@ import math
 import os
 import shutil
 import tempfile
+import time
 from fractions import Fraction
 
 from .core import Driver, frac, REPO
@@ -37,7 +39,8 @@ THEOREMS = ["Readers.decode_encode_csep", "Readers.decode_encode_zmap", "Readers
             "Readers.sec60_carry_ndk", "Readers.offset_to_utc", "Readers.dispatch_total",
             "Readers.daysFromCivil_nextDay", "Readers.nextMinute_spec", "Readers.decode_horus_carries",
             "Readers.decode_encode_horus_denorm", "Readers.decode_encode_ndk_sec60", "Readers.daysFromCivil_strictMono",
-            "Readers.civil_roundtrip", "Readers.jma_float_path_exact", "Readers.decode_encode_jma_float"]
+            "Readers.civil_roundtrip", "Readers.jma_float_path_exact", "Readers.decode_encode_jma_float",
+            "Readers.decode_zmap_repeated", "Readers.decode_zmap_keeps_duplicates", "Readers.decode_csep_repeated"]
 TRUSTED = ["Lean 4.33 kernel", "axioms: propext, Classical.choice, Quot.sound at most",
            "tokenisation: csv.reader, numpy.loadtxt, numpy.genfromtxt (incl. '2017.0000000000' -> int32), NDK fixed-column "
            "slices, float(), int(), datetime.strptime field matching (%f right-padded to microseconds, %z offsets)",
@@ -52,16 +55,100 @@ RULE = ("per format, files of 1..60 records from random event lists: lon [-180,1
         "00:00:00), fractional seconds of 0..6 digits; HORUS seconds/minutes/hours written denormalised (60..119 s, minute 60, "
         "hour 24) across minute/hour/day/month/year ends, real 20.10f layout and compact layout, optional trailing columns; "
         "NDK ':59:60.0'; JMA offsets -12:00..+14:00 in +HHMM/+HH:MM/Z notation, 8% of 6-digit times exact half-ms ties; ZMAP 10..14 numeric columns, integer/float/decimal "
-        "year; CSEP header on/off, blank catalog_id/event_id. A case is non-trivial when the file holds a boundary record "
-        "(leap day, roll-over, second 60, non-zero offset, sub-resolution fraction); distinct by sha1 of the file text")
+        "year; CSEP header on/off, blank catalog_id/event_id. Every format: 30% of the files with >= 2 records repeat records "
+        "that agree in every column (adjacent, distant, several, a file of n copies of one record; NDK: whole five-line "
+        "blocks) - one event per record, nothing de-duplicated; numeric fields as repr incl. exponent notation (values "
+        "within 1e-4 of zero) and, where the format's tokeniser is float()/loadtxt/genfromtxt (CSEP, ZMAP, JMA, compact "
+        "HORUS), the other legal spellings ('5.', '.5', '+5.0', '1E-05', leading/trailing zeros, '%.17e'); every file is "
+        "loaded with the process's local time zone cycling through UTC, Asia/Tokyo, America/Los_Angeles, Europe/London "
+        "and POSIX TZ strings (TZ + time.tzset, restored afterwards). A case is non-trivial when the file holds a "
+        "boundary record (leap day, roll-over, second 60, non-zero offset, sub-resolution fraction) or a repeated record; "
+        "distinct by sha1 of the file text and the zone")
 
 EPOCH = datetime.datetime(1970, 1, 1)
 FORMATS = ("csep-csv", "zmap", "jma-csv", "ingv_horus", "ndk")
 
 
+# ---- the process's local time zone must not matter (the formats state their own zone: UTC, or an explicit offset)
+ZONES = [None, "Asia/Tokyo", "America/Los_Angeles", None, "Europe/London", "JST-9", "PST8PDT,M3.2.0,M11.1.0",
+         "NST3:30NDT,M3.2.0,M11.1.0", "Pacific/Kiritimati", "America/St_Johns", "Australia/Lord_Howe"]
+_ZONE_OK = {}
+
+
+@contextlib.contextmanager
+def local_zone(zone):
+    """run the body with the process's local time zone set to `zone` (None = leave as is); always restored"""
+    if zone is None:
+        yield
+        return
+    old = os.environ.get("TZ")
+    try:
+        os.environ["TZ"] = zone
+        time.tzset()
+        if zone not in _ZONE_OK:   # a zone name unknown to the C library silently means UTC
+            _ZONE_OK[zone] = any(time.localtime(t).tm_gmtoff != 0 for t in (0, 15552000, 1600000000, 1610000000))
+        yield
+    finally:
+        if old is None:
+            os.environ.pop("TZ", None)
+        else:
+            os.environ["TZ"] = old
+        time.tzset()
+
+
 # ----------------------------------------------------------------------------- generators
+def _spell(rng, x, p_repr=0.6):
+    """a text that float() (and numpy's text readers) read as exactly the double x: repr or another legal spelling"""
+    x = float(x)
+    r = repr(x)
+    if rng.random() < p_repr:
+        return r
+    plain = "e" not in r
+    neg = r.startswith("-")
+    body = r[1:] if neg else r
+    sign = "-" if neg else ""
+    opts = ["%.17e" % x, ("%.17e" % x).upper()]
+    if not plain:
+        m, e = r.split("e")
+        opts += [r.upper(), r.replace("e-0", "e-").replace("e+", "e"), m + "e" + ("%+04d" % int(e))]   # 4E-05 4e-5 4e-005
+    if not neg:
+        opts.append("+" + r)
+    if plain:
+        opts += [sign + "00" + body, sign + "0" + body, r + "0", r + "000"]
+        if body.endswith(".0"):
+            opts += [r[:-1], r[:-2], r[:-2] + "e0", r[:-2] + "E+00"]   # 5.  5  5e0  5E+00
+        if body.startswith("0.") and len(body) > 2:
+            opts += [sign + body[1:], ("-" if neg else "+") + body[1:]]   # .5  +.5
+    t = rng.choice(opts)
+    if float(t) != x:
+        raise RuntimeError(f"spelling {t!r} does not read as {x!r}")
+    return t
+
+
+def _repeat(rng, recs):
+    """30% of the files with >= 2 records: some records occur again, identical in every column"""
+    n = len(recs)
+    if n < 2 or rng.random() >= 0.3:
+        return recs
+    kind = rng.choice(["adjacent", "distant", "many", "all"])
+    if kind == "all":
+        return [dict(recs[0], repeated=True) for _ in range(n)]
+    for _ in range(1 if kind != "many" else rng.randint(2, max(2, n // 2))):
+        i = rng.randrange(n)
+        j = (i + 1) % n if kind == "adjacent" else rng.randrange(n)
+        if i != j:
+            recs[i] = dict(recs[i], repeated=True)
+            recs[j] = dict(recs[i])
+    return recs
+
+
 def _coord(rng, lo, hi, decimals=None):
     k = rng.random()
+    if k < 0.1 and (decimals is None or decimals >= 5):
+        # within 1e-4 of zero (Greenwich meridian / equator, shallow depth): repr is in exponent notation
+        x = rng.uniform(1.0, 9.999) * 10.0 ** -rng.randint(5, 12 if decimals is None else decimals)
+        x = -x if lo < 0 and rng.random() < 0.5 else x
+        return x if decimals is None else round(x, decimals)
     if k < 0.15:
         x = float(rng.choice([lo, hi, 0.0, lo + 0.1, hi - 0.1, (lo + hi) / 2]))
     elif k < 0.55:
@@ -124,7 +211,7 @@ def _num(rng, x, intlike=False):
     """a textual float that float() reads back as x"""
     if intlike and rng.random() < 0.5:
         return str(int(x))
-    return repr(float(x))
+    return _spell(rng, x, 0.8)
 
 
 # each gen_* returns spec = dict(fmt=..., opts..., recs=[rec...]); a rec holds the written tokens, the tokens sent to the
@@ -140,12 +227,12 @@ def gen_csep(rng, n):
         lon, lat, mag, dep = _coord(rng, -180, 180), _coord(rng, -90, 90), _coord(rng, -1, 9.5), _coord(rng, -5, 700)
         cid = rng.choice(["", "0", str(rng.randrange(1000))])
         eid = rng.choice(["", str(k), "ev%d" % rng.randrange(10 ** 6)])
-        recs.append(dict(text=[repr(lon), repr(lat), repr(mag), ts, repr(dep), cid, eid],
+        recs.append(dict(text=[_spell(rng, lon), _spell(rng, lat), _spell(rng, mag), ts, _spell(rng, dep), cid, eid],
                          mod=[_fr(lon), _fr(lat), _fr(mag), dt.year, dt.month, dt.day, dt.hour, dt.minute, dt.second,
                               dt.microsecond, _fr(dep)],
                          exp=[_ms(dt), repr(lat), repr(lon), repr(dep), repr(mag)],
                          boundary=b or dt.microsecond % 1000 != 0))
-    return dict(fmt="csep-csv", header=rng.random() < 0.5, recs=recs)
+    return dict(fmt="csep-csv", header=rng.random() < 0.5, recs=_repeat(rng, recs))
 
 
 def gen_zmap(rng, n):
@@ -166,14 +253,14 @@ def gen_zmap(rng, n):
         else:
             ytxt = str(dt.year) if ystyle == "int" else f"{dt.year}.0"
         sec = f"{dt.second}.{dt.microsecond:06d}".rstrip("0").rstrip(".") if dt.microsecond else _num(rng, dt.second, True)
-        cols = [repr(lon), repr(lat), ytxt, _num(rng, dt.month, True), _num(rng, dt.day, True), repr(mag), repr(dep),
-                _num(rng, dt.hour, True), _num(rng, dt.minute, True), sec]
+        cols = [_spell(rng, lon), _spell(rng, lat), ytxt, _num(rng, dt.month, True), _num(rng, dt.day, True),
+                _spell(rng, mag), _spell(rng, dep), _num(rng, dt.hour, True), _num(rng, dt.minute, True), sec]
         cols += [repr(round(rng.uniform(0, 5), 2)) for _ in range(ncol - 10)]
         whole = dt.replace(microsecond=0)
         recs.append(dict(text=cols, mod=[_fr(c) for c in cols],
                          exp=[_ms(whole), repr(lat), repr(lon), repr(dep), repr(mag)],
                          boundary=b or dt.microsecond != 0 or ystyle == "decimal"))
-    return dict(fmt="zmap", sep=sep, recs=recs)
+    return dict(fmt="zmap", sep=sep, recs=_repeat(rng, recs))
 
 
 _OFFS = [0, 0, 9 * 60, 9 * 60, -12 * 60, 14 * 60, 5 * 60 + 30, 5 * 60 + 45, -(3 * 60 + 30), -8 * 60, 60, -60, 13 * 60, -11 * 60]
@@ -196,12 +283,12 @@ def gen_jma(rng, n):
         us_total = ((dt - EPOCH).days * 86400 + (dt - EPOCH).seconds - off * 60) * 10 ** 6 + dt.microsecond
         q, r = divmod(us_total, 1000)
         ms = q + (1 if r > 500 else 0)        # nearest; for r == 500 (tie) both q and q + 1 are accepted
-        recs.append(dict(text=[ts, repr(lon), repr(lat), repr(dep), repr(mag)],
+        recs.append(dict(text=[ts, _spell(rng, lon), _spell(rng, lat), _spell(rng, dep), _spell(rng, mag)],
                          mod=[dt.year, dt.month, dt.day, dt.hour, dt.minute, dt.second, dt.microsecond, off * 60,
                               _fr(lon), _fr(lat), _fr(dep), _fr(mag)],
                          exp=[ms, repr(lat), repr(lon), repr(dep), repr(mag)],
                          boundary=b or off != 0 or dt.microsecond % 1000 != 0, tie=(r == 500)))
-    return dict(fmt="jma-csv", header=rng.random() < 0.5, recs=recs)
+    return dict(fmt="jma-csv", header=rng.random() < 0.5, recs=_repeat(rng, recs))
 
 
 def _denorm(rng, dt):
@@ -246,7 +333,7 @@ def gen_horus(rng, n):
             cols = [f(clk[0]), f(clk[1]), f(clk[2]), f(clk[3]), f(clk[4]), f"{float(sec_val):20.10f}", f(lat), f(lon), f(dep), f(mag)]
         else:
             cols = [str(clk[0]), str(clk[1]), str(clk[2]), str(clk[3]), str(clk[4]),
-                    repr(float(sec_val)), repr(lat), repr(lon), repr(dep), repr(mag)]
+                    repr(float(sec_val)), _spell(rng, lat), _spell(rng, lon), _spell(rng, dep), _spell(rng, mag)]
         tail = [["0.2"], ["0.2", "*", "*"]][trailing // 2][:trailing] if trailing else []
         whole = dt.replace(microsecond=0)
         vals = [float(c) for c in cols]
@@ -254,7 +341,7 @@ def gen_horus(rng, n):
                          mod=[clk[0], clk[1], clk[2], clk[3], clk[4], _fr(vals[5]), _fr(vals[6]), _fr(vals[7]), _fr(vals[8]), _fr(vals[9])],
                          exp=[_ms(whole), repr(vals[6]), repr(vals[7]), repr(vals[8]), repr(vals[9])],
                          boundary=b or bool(used) or dt.microsecond != 0, denorm="".join(used)))
-    return dict(fmt="ingv_horus", layout=layout, recs=recs)
+    return dict(fmt="ingv_horus", layout=layout, recs=_repeat(rng, recs))
 
 
 _NDK_T = ["C200501010120A   B:  4    4  40 S: 27   33  50 M:  0    0   0 CMT: 1 TRIHD:  0.6",
@@ -293,7 +380,7 @@ def gen_ndk(rng, n):
                               _fr(float(lat_t)), _fr(float(lon_t)), _fr(float(dep_t)), _fr(mw)],
                          exp=[_ms(whole), repr(float(lat_t)), repr(float(lon_t)), repr(float(dep_t)), repr(mw)],
                          boundary=b or sec60, sec60=sec60))
-    return dict(fmt="ndk", recs=recs)
+    return dict(fmt="ndk", recs=_repeat(rng, recs))
 
 
 GEN = {"csep-csv": gen_csep, "zmap": gen_zmap, "jma-csv": gen_jma, "ingv_horus": gen_horus, "ndk": gen_ndk}
@@ -326,10 +413,11 @@ def build(spec):
     return text, f"{OP[fmt]} " + (";".join(mod) if mod else "-")
 
 
-def _loaded(path, fmt):
+def _loaded(path, fmt, zone=None):
     import csep
     try:
-        c = csep.load_catalog(path, type=fmt)
+        with local_zone(zone):
+            c = csep.load_catalog(path, type=fmt)
         a = c.catalog
         return [[int(r["origin_time"]), Fraction(float(r["latitude"])), Fraction(float(r["longitude"])),
                  Fraction(float(r["depth"])), Fraction(float(r["magnitude"]))] for r in a]
@@ -376,16 +464,21 @@ def check_case(ctx, spec, tag):
         f.write(text[:-1] if strip_nl else text)
     if strip_nl:
         run.count("file-without-final-newline")
-    case = dict(tag=tag, fmt=fmt, n=len(recs), sha1=sha, spec=spec)
-    small = dict(tag=tag, fmt=fmt, n=len(recs), sha1=sha, first=recs[0]["text"] if recs else None)
-    run.case(small, sha if any(r.get("boundary") for r in recs) else None)
+    zone = spec.get("tz")
+    case = dict(tag=tag, fmt=fmt, n=len(recs), sha1=sha, tz=zone, spec=spec)
+    small = dict(tag=tag, fmt=fmt, n=len(recs), sha1=sha, tz=zone, first=recs[0]["text"] if recs else None)
+    n_rep = len(recs) - len({json.dumps(r["text"]) for r in recs})
+    run.case(small, f"{sha}|{zone}" if n_rep or any(r.get("boundary") for r in recs) else None)
     run.count(fmt)
+    run.count("tz:" + str(zone))
+    if n_rep:
+        run.count(f"{fmt}: file with records identical in every column")
     for r in recs:
         if r.get("denorm"):
             run.count("horus-denorm-" + r["denorm"])
         if r.get("sec60"):
             run.count("ndk-sec60")
-    got = _loaded(path, fmt)
+    got = _loaded(path, fmt, zone)
     os.unlink(path)
     want = [[int(r["exp"][0])] + [Fraction(float(x)) for x in r["exp"][1:]] for r in recs]
     # direct oracle: one event per record, in order, fields as encoded
@@ -558,8 +651,12 @@ def run(run, rng, tier):
                 check_case(ctx, GEN[fmt](rng, n), "small")
             for k in range(per):
                 n = rng.choice([1, 2, 3, 5, 10, 20, 60, rng.randint(1, 60)])
-                check_case(ctx, GEN[fmt](rng, n), "random")
+                check_case(ctx, dict(GEN[fmt](rng, n), tz=ZONES[k % len(ZONES)]), "random")
             flush(ctx)
+        run.extra["local_zones_effective"] = sorted(z for z, ok in _ZONE_OK.items() if ok)
+        dead = sorted(z for z, ok in _ZONE_OK.items() if not ok)
+        if dead:
+            run.assumptions.append(f"time zones {dead} are unknown to the C library here (local time stayed UTC under them)")
     finally:
         ctx.close()
 
